@@ -313,3 +313,33 @@ Definition ser (v : variant) (o : opts) (n : node) : sres :=
 
 Definition ser_bytes (v : variant) (o : opts) (n : node) : option (list N) :=
   match ser v o n with SOk st => Some (out st) | SPanic => None end.
+
+(* ------------------------------------------------------------------ the Serializer trait driven directly
+   (any call sequence, balanced or not: exercises parent() / end_elem on an
+   empty stack and create_missing_parent) *)
+Inductive call :=
+| CStart (name : qname) (attrs : list (qname * list N))
+| CEnd (name : qname)
+| CText (t : list N)
+| CComment (t : list N)
+| CDoctype (name : list N)
+| CPI (target data : list N).
+
+Definition do_call (v : variant) (o : opts) (st : sstate) (c : call) : sres :=
+  match c with
+  | CStart name attrs => start_elem v o st name attrs
+  | CEnd name => end_elem o st name
+  | CText t => write_text v o st t
+  | CComment t => write_comment st t
+  | CDoctype n => write_doctype st n
+  | CPI t d => write_processing_instruction st t d
+  end.
+
+Fixpoint run_calls (v : variant) (o : opts) (cs : list call) (st : sstate) : sres :=
+  match cs with
+  | [] => SOk st
+  | c :: cs' => bind (do_call v o st c) (run_calls v o cs')
+  end.
+
+Definition ser_calls (v : variant) (o : opts) (cs : list call) : option (list N) :=
+  match run_calls v o cs (ser_new v o) with SOk st => Some (out st) | SPanic => None end.
